@@ -29,6 +29,7 @@ ATOM_POOL = [
     "int()", "int(*)()", "void(int, ...)", "tl::s_empty", "tl::s_incomplete", "tl::s_abstract", "tl::s_final",
     "tl::e_enum", "tl::u_union", "std::nullptr_t", "xtl::mpl::vector<>", "xtl::mpl::vector<int>",
     "xtl::mpl::vector<int, xtl::mpl::vector<>>", "std::tuple<>", "int tl::s_empty::*", "long double",
+    "std::true_type", "std::false_type",      # the marker types of if_/switch_ (default_t is std::true_type) as ordinary elements
 ]
 
 
@@ -51,7 +52,7 @@ def check_assumptions(r, what):
 
 # ------------------------------------------------------------------ rendering: TypeList rows
 TL_TMPL = {"vector": "mpl::vector", "other": "other", "tuple": "std::tuple"}
-TL_FUN = {"W": "W", "ptr": "std::add_pointer_t", "rot": "rot", "const1": "const1"}
+TL_FUN = {"W": "W", "ptr": "std::add_pointer_t", "rot": "rot", "const1": "const1", "W2": "W2", "tuple1": "std::tuple"}
 
 
 def tl_ty(t):
@@ -62,6 +63,8 @@ def tl_ty(t):
         return "notype"
     if n == "W":
         return "W<%s>" % tl_ty(a[0])
+    if n == "W2":
+        return "W2<%s, void>" % tl_ty(a[0])
     if n == "id":
         return "id<%s>" % tl_ty(a[0])
     if n == "ptr":
@@ -163,17 +166,20 @@ CPP = {"bool": "bool", "char": "char", "schar": "signed char", "uchar": "unsigne
        "char16_t": "char16_t", "char32_t": "char32_t", "short": "short", "ushort": "unsigned short", "int": "int",
        "uint": "unsigned int", "long": "long", "ulong": "unsigned long", "llong": "long long", "ullong": "unsigned long long",
        "float": "float", "double": "double", "ldouble": "long double", "uint8_t": "std::uint8_t"}
-EXTRA_OPS = {"BigPromote", "RealPromote", "BoolPromote", "Concepts", "AllScalar"}      # documented companions: advisory only
-ALL_OPS = ["Size", "Empty", "Front", "Back", "PushFront", "PushBack", "PopFront", "Count", "CountIf", "Contains", "IndexOf",
+EXTRA_OPS = {"BigPromote", "RealPromote", "BoolPromote", "Concepts", "AllScalar",      # documented companions: advisory only
+             "CommonOptional", "ChronoPromote"}                                       # (PromoteExtra.tla: not named by the statement)
+ALL_OPS = ["PromoteCv", "Size", "Empty", "Front", "Back", "PushFront", "PushBack", "PopFront", "Count", "CountIf", "Contains", "IndexOf",
            "FindIf", "Transform", "Cast", "Split", "Unique", "MergeSet", "Plus", "If", "EvalIf", "Switch", "StaticIf",
            "Add", "Add3", "Promote", "BigPromote", "RealPromote", "BoolPromote", "Conjunction", "Disjunction", "Negation",
-           "Concepts", "AllScalar", "ApplyCv", "Constify"]
+           "Concepts", "AllScalar", "ApplyCv", "Constify", "CommonOptional", "ChronoPromote"]
 ORACLE_OPS = {"Add", "Add3"}                                              # spec vs compiler, no xtl
 
 
 def pr_ty(t):
     if t["n"] == "complex":
         return "std::complex<%s>" % pr_ty(t["a"][0])
+    if t["n"] in ("const", "volatile", "cv"):
+        return "%s %s" % (pr_ty(t["a"][0]), {"const": "const", "volatile": "volatile", "cv": "const volatile"}[t["n"]])
     return CPP[t["n"]]
 
 
@@ -199,6 +205,31 @@ def logic_row(name, args, r):
     return " && ".join(conds), inst + "::value"
 
 
+def opt_ty(t):
+    n = t["n"]
+    if n == "xoptional":
+        return "xtl::xoptional<%s>" % opt_ty(t["a"][0])
+    if n == "xoptionalc":
+        return "xtl::xoptional<%s, char>" % opt_ty(t["a"][0])
+    if n == "const":
+        return "const %s" % opt_ty(t["a"][0])
+    if n == "constref":
+        return "const %s&" % opt_ty(t["a"][0])
+    return CPP[n]
+
+
+def render_ex(row):
+    op, a, res = row["op"], row["a"], row["res"]
+    if op == "CommonOptional":
+        s = "xtl::common_optional_t<%s>" % ", ".join(opt_ty(x) for x in a["args"])
+        return pr_any(s, res, opt_ty), s, "type"
+    if op == "ChronoPromote":
+        tp = lambda d: "tp<%s, %d, %d>" % (CPP[d["rep"]], d["per"][0], d["per"][1])
+        s = "xtl::promote_type_t<%s, %s>" % (tp(a["d1"]), tp(a["d2"]))
+        return pr_any(s, res, tp), s, "type"
+    raise MachineryError("renderer: unknown PromoteExtra op %s" % op)
+
+
 def render_pr(row):
     op, a, res = row["op"], row["a"], row["res"]
     if op == "Add":
@@ -207,7 +238,7 @@ def render_pr(row):
     if op == "Add3":
         s = "add3_t<%s, %s, %s>" % (pr_ty(a["x"]), pr_ty(a["y"]), pr_ty(a["z"]))
         return pr_any(s, res, pr_ty), s, "type"
-    if op == "Promote":
+    if op in ("Promote", "PromoteCv"):
         s = "xtl::promote_type_t<%s>" % ", ".join(pr_ty(x) for x in a["pack"])
         return pr_any(s, res, pr_ty), s, "type"
     if op in ("BigPromote", "RealPromote", "BoolPromote"):
@@ -252,6 +283,8 @@ def header(table, atoms):
     if table == "tl":
         h = "".join("#define TL_ATOM_%s %s\n" % (k, atoms[k]) for k in "ABCD")
         return h + '#include "c18/typelist_prelude.hpp"\nnamespace rows\n{\nusing namespace tl;\n'
+    if table == "ex":
+        return '#include "c18/extra_prelude.hpp"\nnamespace rows\n{\nusing namespace ex;\n'
     return '#include "c18/traits_prelude.hpp"\nnamespace rows\n{\nusing namespace tr;\n'
 
 
@@ -409,18 +442,52 @@ def run_table(ctx, comp, rows, ntu, label, rnd):
     return [x for r in res for x in r]
 
 
+HEADER_OF = {"tl": "xtl/xmeta_utils.hpp", "pr": "xtl/xtype_traits.hpp", "ex": "xtl/xoptional_meta.hpp"}
+
+
 def prelude_ok(ctx, comp, table):
+    """The vocabulary the rows are written in must compile.  If it does not: when the xtl header alone does not compile
+    either, no instantiation the property speaks of is well-formed - a VIOLATION (replay: the one-line translation
+    unit); otherwise the prelude no longer fits the header (machinery error).  Returns False after a violation."""
     r = Row(0, table, {"op": "prelude"}, "true", "int", "type")
     ok, out, _, path = comp.compile([r], "prelude-%s.cpp" % table)
-    if not ok:
-        raise MachineryError("the C18 prelude does not compile against %s (%s):\n%s" % (core.INCLUDE, path, out[-3000:]))
+    if ok:
+        return True
+    os.makedirs(ctx.replays, exist_ok=True)
+    rp = os.path.join(ctx.replays, "header_%s_%s.cpp" % (table, os.path.basename(comp.cxx)))
+    with open(rp, "w") as f:
+        f.write("// C18 replay: the header alone, %s -std=c++14 -fsyntax-only -I<xtl include>\n#include \"%s\"\nint main() {}\n"
+                % (os.path.basename(comp.cxx), HEADER_OF[table]))
+    rc, o = core.sh(cxx_cmd(comp.cxx, rp), timeout=600)
+    if rc == 0:
+        os.remove(rp)
+        raise MachineryError("the C18 prelude does not compile against %s (%s) although %s alone does:\n%s"
+                             % (core.INCLUDE, path, HEADER_OF[table], out[-3000:]))
+    errs = [l.strip() for l in o.splitlines() if "error" in l][:4]
+    ctx.violation("%s does not compile (%s): none of the instantiations the property speaks of is well-formed: %s"
+                  % (HEADER_OF[table], comp.cxx, " | ".join(errs)[:1200]), replay_path=rp)
+    return False
 
 
 # ------------------------------------------------------------------ static_if (run time, C->S)
-def static_if_stage(ctx, tl_rows):
+def build_static_if(ctx):
+    """-> (driver or None after a VIOLATION, has_tag_form)"""
+    from vlib import tables
     drv = os.path.join(ctx.work, "static_if_driver")
-    core.build(ctx, os.path.join(HC18, "static_if_driver.cpp"), drv)
-    calls = [{"op": "StaticIf", "a": r["a"]} for r in tl_rows if r["op"] == "StaticIf"]
+    src = os.path.join(HC18, "static_if_driver.cpp")
+    rc, o = core.try_build(ctx, os.path.join(HC18, "static_if_probe.cpp"), drv + ".tagprobe", flags=["-DTAG_FORM"])
+    tag = rc == 0
+    if not tag:
+        ctx.notes["static_if_tag_form"] = "the overloads static_if(std::true_type / std::false_type, tf, ff) are not callable; only static_if<cond>(tf, ff) is driven"
+    d = tables.build_driver(ctx, "C18", src, drv, os.path.join(HC18, "static_if_probe.cpp"), flags=["-DHAVE_TAG_FORM"] if tag else [])
+    return d, tag
+
+
+def static_if_stage(ctx, tl_rows):
+    drv, tag = build_static_if(ctx)
+    if drv is None:
+        return 0
+    calls = [{"op": "StaticIf", "a": r["a"]} for r in tl_rows if r["op"] == "StaticIf" and (tag or r["a"]["form"] != "tag")]
     # seeded values: what the callables return is an input, the spec is evaluated on the logged arguments
     rnd = random.Random(ctx.seed * 7919 + 18)
     for c in calls:
@@ -439,8 +506,14 @@ def static_if_stage(ctx, tl_rows):
 
 def run_static_if(drv, sp, tp):
     env = dict(os.environ); env.update(core.ASAN_ENV)
+    # unbounded recursion must end at the stack limit, not in the OOM killer (see vlib/tables.py run_harness)
+    env["ASAN_OPTIONS"] = env["ASAN_OPTIONS"].replace("detect_stack_use_after_return=1", "detect_stack_use_after_return=0") + ":hard_rss_limit_mb=4096"
     with open(sp) as fin, open(tp, "w") as fout:
-        p = subprocess.run([drv], stdin=fin, stdout=fout, stderr=subprocess.PIPE, env=env, timeout=600)
+        try:
+            p = subprocess.run([drv], stdin=fin, stdout=fout, stderr=subprocess.PIPE, env=env, timeout=300)
+        except subprocess.TimeoutExpired:
+            fout.write('\n{"op":"Crash","why":"the driver did not finish within 300 s"}\n')
+            return
     if p.returncode == 3:
         raise MachineryError("static_if driver rejected its script: %s" % p.stderr.decode()[-500:])
 
@@ -456,8 +529,10 @@ def replay(ctx, path):
         print("  " + "\n  ".join([l for l in out.splitlines() if "error" in l][:5]))
         return 1
     lines = [l for l in core.read_ndjson(path) if "_meta" not in l]
-    drv = os.path.join(ctx.work, "static_if_driver")
-    core.build(ctx, os.path.join(HC18, "static_if_driver.cpp"), drv)
+    drv, tag = build_static_if(ctx)
+    if drv is None:
+        print("VIOLATION property=C18 replay=%s\n  the static_if driver does not build against this tree" % path)
+        return 1
     sp, tp = os.path.join(ctx.work, "replay.script"), os.path.join(ctx.work, "replay.ndjson")
     with open(sp, "w") as f:
         for l in lines:
@@ -555,8 +630,16 @@ def run(ctx):
             check_assumptions(rl, "Promote.tla (%s)" % m)
     r["out"] = ""
 
+    # ---- 2b. TLC: the advisory companions (common_optional, time_point promotion)
+    r = core.tlc_model_check(ctx, "PromoteExtra", "PromoteExtra_mc.cfg" if q else "PromoteExtra_mc_thorough.cfg",
+                             "advisory companions (common_optional, time_point promotion) enumerated; their laws",
+                             env={"PLATFORM": plat}, workers=2)
+    check_assumptions(r, "PromoteExtra.tla")
+    ex_spec = emitted(r["out"])
+    r["out"] = ""
+
     rows, rid = [], 0
-    for table, spec_rows, render in (("tl", tl_spec, render_tl), ("pr", pr_spec, render_pr)):
+    for table, spec_rows, render in (("tl", tl_spec, render_tl), ("pr", pr_spec, render_pr), ("ex", ex_spec, render_ex)):
         for s in spec_rows:
             if s["op"] == "StaticIf":
                 continue
@@ -574,22 +657,43 @@ def run(ctx):
         ctx.log("vacuous actions (never enumerated): %s" % ctx.notes["vacuous_actions"])
     ctx.log("%d type-list calls and %d trait calls enumerated by TLC" % (len(tl_spec), len(pr_spec)))
 
-    compilers = [core.CXX] + ([] if q else ["clang++"])
+    # second compiler: every row in the thorough tier, a seeded quarter of the rows in the quick tier
+    compilers = [(core.CXX, 1), ("clang++", 4 if q else 1)]
+    all_rows = rows
     nrows_checked = 0
-    for cxx in compilers:
+    for cxx, stride in compilers:
+        if stride > 1:
+            rows = list(all_rows)
+            rnd.shuffle(rows)
+            rows = rows[::stride]
+            # every operation keeps at least a few rows
+            have = {x.spec["op"] for x in rows}
+            rows += [x for x in all_rows if x.spec["op"] not in have]
+        else:
+            rows = all_rows
         comp = Compiler(ctx, cxx, atoms)
-        prelude_ok(ctx, comp, "tl")
-        prelude_ok(ctx, comp, "pr")
+        usable = {t: prelude_ok(ctx, comp, t) for t in ("tl", "pr")}
+        # the advisory table: a prelude that does not compile (common_optional gone, ...) only switches it off
+        rx = Row(0, "ex", {"op": "prelude"}, "true", "int", "type")
+        usable["ex"] = comp.compile([rx], "prelude-ex.cpp")[0]
+        if not usable["ex"]:
+            note = "the advisory table of PromoteExtra.tla (common_optional, time_point promotion) cannot be compiled against this tree (%s)" % cxx
+            if note not in ctx.drift:
+                ctx.drift.append(note)
         # ---- 3a. the oracle against the compiler
-        orows = [x for x in rows if x.spec["op"] in ORACLE_OPS]
-        bad = run_table(ctx, comp, orows, 4 if q else 12, "oracle", rnd)
-        if bad:
-            x, out = bad[0]
-            raise MachineryError("Promote.tla disagrees with %s on %s: spec says %s; this is a spec error, not a violation\n%s"
-                                 % (cxx, x.subject, expected_text(x), out[-1500:]))
-        ctx.log("%s: oracle cross-check, %d Add/Add3 rows agree with decltype(a + b)" % (cxx, len(orows)))
+        if usable["pr"]:
+            orows = [x for x in rows if x.spec["op"] in ORACLE_OPS]
+            bad = run_table(ctx, comp, orows, 4 if q else 12, "oracle", rnd)
+            if bad:
+                x, out = bad[0]
+                raise MachineryError("Promote.tla disagrees with %s on %s: spec says %s; this is a spec error, not a violation\n%s"
+                                     % (cxx, x.subject, expected_text(x), out[-1500:]))
+            ctx.log("%s: oracle cross-check, %d Add/Add3 rows agree with decltype(a + b)" % (cxx, len(orows)))
         # ---- 3b. xtl against the oracle
-        for table, label, ntu in (("tl", "typelist", core.NCPU if q else 3 * core.NCPU), ("pr", "traits", core.NCPU // 2 if q else core.NCPU)):
+        for table, label, ntu in (("tl", "typelist", core.NCPU if q else 3 * core.NCPU), ("pr", "traits", max(2, core.NCPU // 2) if q else core.NCPU),
+                                  ("ex", "companions", 2)):
+            if not usable[table]:
+                continue
             irows = [x for x in rows if x.table == table and x.spec["op"] not in ORACLE_OPS]
             bad = run_table(ctx, comp, irows, ntu, label, rnd)
             nrows_checked += len(irows)
@@ -597,16 +701,15 @@ def run(ctx):
             for x, out in bad:
                 per_op.setdefault(x.spec["op"], []).append((x, out))
             for op, lst in sorted(per_op.items()):
-                hard = [1 for x, out in lst if "static assertion failed" not in out and "static_assert failed" not in out]
-                if len(lst) >= ops[op] and len(hard) == len(lst):
-                    raise MachineryError("every %s row fails with a hard compile error under %s: the harness no longer fits the header\n%s"
-                                         % (op, cxx, lst[0][1][-2000:]))
-                for x, out in lst[:8]:
+                # (a row that fails with a hard error instead of a failed static_assert - the metafunction is gone, renamed or
+                #  ill-formed for these arguments - is reported like any other: every row compiles against a tree where the
+                #  property holds, whatever its private names are, because the rows use the public names of the statement only)
+                for x, out in lst[:4 if stride > 1 else 8]:
                     os.makedirs(ctx.replays, exist_ok=True)
                     rp = os.path.join(ctx.replays, "row_%s_%d_s%d.cpp" % (op, x.rid, ctx.seed))
                     got = explain(ctx, cxx, x, atoms, rp)
                     text = "%s: %s is %s ; %s requires: %s  [%s; spec row %s]" % (
-                        op, x.subject, got, "Promote.tla" if table == "pr" else "TypeList.tla", x.cond[:700], cxx,
+                        op, x.subject, got, {"pr": "Promote.tla", "tl": "TypeList.tla", "ex": "PromoteExtra.tla"}[table], x.cond[:700], cxx,
                         json.dumps(x.spec, sort_keys=True)[:500])
                     if op in EXTRA_OPS:
                         ctx.drift.append("documented companion trait differs from its description: " + text)
@@ -615,6 +718,8 @@ def run(ctx):
                         ctx.violation(text, replay_path=rp)
             ctx.log("%s: %s table, %d rows asserted, %d rejected" % (cxx, label, len(irows), len(bad)))
         ctx.notes["compiles_" + os.path.basename(cxx)] = comp.compiles
+        ctx.notes["rows_" + os.path.basename(cxx)] = len(rows)
+    rows = all_rows
     for x in rows[:1] + [y for y in rows if y.spec["op"] == "Promote"][-1:] + [y for y in rows if y.spec["op"] == "MergeSet"][:1]:
         ctx.sample({"call": x.spec, "static_assert": x.cond[:400]})
 
@@ -628,13 +733,15 @@ def run(ctx):
         ctx, "exploration",
         rule="exhaustive inside the bounds: every type list of length <= %d over 3 distinct atom types (+ patterns of length 5..%d), "
              "2 list templates, x every metafunction of the property x every argument (values: 3 atoms + 1 absent type; predicates: all 8 "
-             "subsets; transform: 4 metafunctions; split: every n <= size; merge_set: every second list of length <= %d; push: 0..2 types; "
-             "switch_: 1..%d cases); every pack of 1..%d types out of 18 builtin arithmetic types + complex<float|double|long double>; "
+             "subsets; transform: 6 metafunctions (class templates of one, two (one defaulted) and any number of parameters, alias templates); split: every n <= size; merge_set: every second list of length <= %d; push: 0..2 types; "
+             "switch_: 1..%d cases); every pack of 1..%d types out of 18 builtin arithmetic types + complex<float|double|long double>; packs of "
+             "1..2 const/volatile-qualified arithmetic types; "
              "conjunction/disjunction over every sequence of <= %d arguments out of 2 true, 2 false and 1 value-less class; apply_cv 12x4 and "
              "constify 36 cv/pointer/reference forms. A case is one instantiation asserted (static_assert) against the TLC-computed table; "
              "the atoms are mapped to C++ types chosen by VERIF_SEED from a pool of %d."
-             % (3 if q else 4, 9 if q else 12, 3 if q else 4, 2 if q else 3, 2 if q else 3, 3 if q else 4, len(ATOM_POOL)),
-        assumptions=["the C++ compiler (g++; clang++ too in the thorough tier) evaluates static_assert correctly",
+             % (3 if q else 4, 40 if q else 64, 3 if q else 4, 2 if q else 3, 2 if q else 3, 3 if q else 4, len(ATOM_POOL)),
+        assumptions=["the C++ compiler (g++ on every row; clang++ on every row in the thorough tier and on a seeded quarter in the quick tier) "
+                     "evaluates static_assert correctly",
                      "Promote.tla's Add table is cross-checked against decltype(a + b) of the same compiler for all pairs (triples in thorough)",
                      "std::complex only with floating-point value types (others are unspecified by the standard)",
                      "where the statement leaves the answer open (a single type after leading bools; merge_set with a repeated first "
